@@ -511,7 +511,7 @@ func runJob(j job, n int) outcome {
 	limit := time.Duration(hangBoundMs)*time.Millisecond + time.Duration(j.DelayUs)*time.Microsecond + 3*time.Second
 	ctx, cancel := context.WithTimeout(context.Background(), limit)
 	defer cancel()
-	cmd := exec.CommandContext(ctx, self, "-child", path)
+	cmd := hx.Supervised(exec.CommandContext(ctx, self, "-child", path))
 	cmd.Env = append(os.Environ(), "GOMEMLIMIT=1GiB", "GOMAXPROCS=4")
 	t0 := time.Now()
 	outb, err := cmd.Output()
